@@ -113,7 +113,7 @@ def run(ctx, only=None):
     ctx.prove()
     S.check_tick_shapes()
     rng = random.Random(ctx.seed)
-    n = ctx.n(900, 20000)
+    n = ctx.n(900, 12000)
     exprs, meta, mon = [], [], []
     stats = dict(json_cases=0, env_cases=0, env_registry_hit=0, env_no_qname=0, tick_cases=0, stop_with_dyn=0,
                  nested_events=0, exn_fields=0, exn_ctor_other=0, exn_transform=0, exn_unimportable=0,
@@ -255,4 +255,7 @@ def run(ctx, only=None):
 def replay(ctx, path):
     body = json.load(open(path))
     print(json.dumps({k: body[k] for k in body if k != "coq_exprs"}, indent=1)[:4000])
+    # cases are a deterministic function of (seed, tier): re-run the recorded stream on the current tree
+    ctx.seed = int(body.get("seed", ctx.seed))
+    ctx.tier = body.get("tier", ctx.tier)
     run(ctx)
